@@ -17,7 +17,7 @@
    see notes/C10.md for what is still open. *)
 From Coq Require Import List ZArith.
 From RtoscV Require Import Pretty.Tok Pretty.FloatFmt Pretty.PrintModel Pretty.ScanModel
-  Pretty.PrettyProofs Pretty.RangeProofs Pretty.RunProofs Pretty.PrettyRegress.
+  Pretty.PrettyProofs Pretty.RangeProofs Pretty.RunProofs Pretty.ListProofs Pretty.PrettyRegress.
 Import ListNotations.
 Local Open Scope Z_scope.
 
@@ -78,6 +78,48 @@ Theorem C10_repetition_reads_partial : forall (dec2f dec2d : list Z -> Z) els T,
   count_printed_arg_vals dec2f dec2d T = Ok (true, total_slots els) /\
   scan_arg_vals dec2f dec2d T (total_slots els) = Ok (concat els, []).
 Proof. exact elements_agree. Qed.
+
+(* THE LIST-LEVEL ROUND TRIP FOR EVERY OPTION RECORD (compression on or off,
+   any line length, precision, column): for lists of int32/int64/char values,
+   true/false/nil/inf, strings and quoted symbols (goodc: integers within half
+   of their type's range so that no run or span wraps - findings D26/D27 -,
+   strings/symbols/chars without '.' - finding D28 -; floats, plain symbols,
+   blobs, MIDI, colours, arrays and time tags are outside), the returned count
+   is the text length, the checker accepts with the number of slots the scanner
+   then writes, the scanner consumes the whole text, and the slots expand to
+   the original values. *)
+Theorem C10_roundtrip_any_partial : forall (dec2f dec2d : list Z -> Z) o vs text w,
+  Forall goodc vs -> Z.of_nat (length vs) < 2 ^ 31 ->
+  print_arg_vals o vs 0 = Some (text, w) ->
+  exists slots,
+    w = len text /\
+    count_printed_arg_vals dec2f dec2d text = Ok (true, Z.of_nat (length slots)) /\
+    scan_arg_vals dec2f dec2d text (Z.of_nat (length slots)) = Ok (slots, []) /\
+    expand slots = Some vs.
+Proof. exact roundtrip_any. Qed.
+
+(* non-vacuity: a list with a constant run, an elided and an explicit run *)
+Theorem C10_roundtrip_any_nonvacuous :
+  Forall goodc ([VT; VT; VT; VT; VT; VI 7] ++ map VI [1; 2; 3; 4; 5; 6] ++ map VH [10; 20; 30; 40; 50]) /\
+  exists text w, print_arg_vals {| lossless := true; prec := 2; linelength := 20; compress := true |}
+    ([VT; VT; VT; VT; VT; VI 7] ++ map VI [1; 2; 3; 4; 5; 6] ++ map VH [10; 20; 30; 40; 50]) 0 = Some (text, w).
+Proof. exact roundtrip_any_example. Qed.
+
+(* the text forms the printer uses with compression on - values, repetitions
+   "NxV", range tails "b ... c" (the explicit form "a b ... c" is the value a
+   followed by the tail from b) - in any sequence, separated by any white
+   space: both recognisers read them back and the scanned slots expand to the
+   original values.  iseq threads the original previous value: a tail is read
+   with the unit step unless that value is a same-typed neighbour (ctx_ok). *)
+Theorem C10_compressed_reads_partial : forall (dec2f dec2d : list Z -> Z) its T,
+  iseq dec2f dec2d None its T ->
+  count_printed_arg_vals dec2f dec2d T = Ok (true, Z.of_nat (length (islots its))) /\
+  scan_arg_vals dec2f dec2d T (Z.of_nat (length (islots its))) = Ok (islots its, []) /\
+  expand (islots its) = Some (iorig its).
+Proof.
+  exact (fun a b its T H => conj (proj1 (iseq_reads a b its T H))
+                                 (conj (proj2 (iseq_reads a b its T H)) (expand_items a b its None T H))).
+Qed.
 
 (* decimal integers: no open hypothesis about printf/sscanf *)
 Theorem C10_decimal_roundtrip : forall v rest,
